@@ -43,6 +43,32 @@ inline Bytes contentBytes(uint32_t id, uint32_t off, size_t n)
     return b;
 }
 
+// Dictionary of byte strings that mean something on the buses this protocol captures (a captured Ethernet preamble + SFD,
+// broadcast / link-local multicast addresses, LLC/SNAP, HDLC flags, all-zero). One content id in eight starts its data
+// region with one of them: value-dependent special cases on such patterns are otherwise out of reach of pseudo-random bytes.
+inline void applyDictionary(uint8_t* data, size_t n, uint32_t id)
+{
+    static const uint8_t d0[] = {0x55, 0x55, 0x55, 0x55, 0x55, 0x55, 0x55, 0xD5};
+    static const uint8_t d1[] = {0xFF, 0xFF, 0xFF, 0xFF, 0xFF, 0xFF};
+    static const uint8_t d2[] = {0x01, 0x80, 0xC2, 0x00, 0x00, 0x0E};
+    static const uint8_t d3[] = {0, 0, 0, 0, 0, 0, 0, 0};
+    static const uint8_t d4[] = {0xAA, 0xAA, 0x03, 0x00, 0x00, 0x00, 0x08, 0x00};
+    static const uint8_t d5[] = {0x7E, 0x7E};
+    static const uint8_t d6[] = {'A', 'S', 'A', 'M', ' ', 'C', 'M', 'P'};
+    static const uint8_t d7[] = {0x01, 0x1B, 0x19, 0x00, 0x00, 0x00};
+    static const struct
+    {
+        const uint8_t* p;
+        size_t n;
+    } dict[] = {{d0, sizeof d0}, {d1, sizeof d1}, {d2, sizeof d2}, {d3, sizeof d3}, {d4, sizeof d4}, {d5, sizeof d5}, {d6, sizeof d6}, {d7, sizeof d7}};
+    const uint64_t r = mix64(id * 0x9E3779B97F4A7C15ULL + 4242);
+    if ((r & 7) != 0 || n == 0)
+        return;
+    const auto& e = dict[(r >> 8) % 8];
+    for (size_t i = 0; i < e.n && i < n; ++i)
+        data[i] = e.p[i];
+}
+
 // A well-formed payload of the given kind with exactly len bytes (len is raised to the kind's minimum).
 // "Well-formed" by wire.h's rules: no bus-error flags, consistent inner lengths, valid sample type,
 // interface status <= 2, status-payload walks ending exactly at the end.
@@ -53,6 +79,30 @@ inline Bytes makePayload(int kind, size_t len, uint32_t id)
         len = 65535;
     Bytes b = contentBytes(id, 0, len);
     const uint64_t r = mix64(id * 0x9E3779B97F4A7C15ULL + 77);
+    {
+        // the data region of the bus payloads may start with a dictionary entry
+        size_t dataOff = static_cast<size_t>(-1);
+        switch (kind)
+        {
+            case wire::K_CAN:
+            case wire::K_CANFD:
+                dataOff = wire::CAN_FIXED;
+                break;
+            case wire::K_LIN:
+                dataOff = wire::LIN_FIXED;
+                break;
+            case wire::K_ETH:
+                dataOff = wire::ETH_FIXED;
+                break;
+            case wire::K_ANALOG:
+                dataOff = wire::ANALOG_FIXED;
+                break;
+            default:
+                break;
+        }
+        if (dataOff < len)
+            applyDictionary(b.data() + dataOff, len - dataOff, id);
+    }
     switch (kind)
     {
         case wire::K_CAN:
